@@ -89,6 +89,7 @@ func dischargeTypeAssert(p *core.Prog, ta *ssa.TypeAssert) (bool, string) {
 }
 
 func c14(c *Ctx) {
+	lockPairing(c, "R-C14.5")
 	p, r := c.P, c.R
 	r.Rule("R-C14.1", "every run-time panic site (explicit panic, index, slice bounds, unchecked type assertion, integer division) in every module function reachable from InterceptingListener.Accept (closures, listener function fields and module storage back ends included) is discharged by a dominating length test on the same access path, a range-loop bound, a fixed-array constant index, a container-content invariant or proto.Clone typing; unchecked constant-bound slices inside dependency callees (aead.Wrapper.Decrypt) become length preconditions at the module's call site when the argument is remote input")
 	r.Rule("R-C14.2", "in Accept every return after a successful base Accept has a nil error or an error produced by temperror.New, and every error return has a nil connection; NewConn cannot fail for the options used; tempError.Temporary() is true on every path")
